@@ -81,6 +81,20 @@ class MyRoot(reg32.AddrMap, word_count=8):
     f: Inner[8]
     g: Inner[16]
 ''', {0: "memword", 3: "memword", 5: "memword"}),
+    # two levels of RegFile nesting at non-zero offsets (global offset = sum of all enclosing offsets)
+    "nested2": ('''class Inner2(reg32.RegFile, word_count=2):
+    m: reg32.MemWord[4]
+
+
+class Outer(reg32.RegFile, word_count=8):
+    x: reg32.MemWord[0]
+    inner: Inner2[16]
+
+
+class MyRoot(reg32.AddrMap, word_count=32):
+    a: reg32.MemWord[0]
+    o: Outer[64]
+''', {0: "memword", 16: "memword", 21: "memword"}),
 }
 
 
